@@ -283,6 +283,7 @@ package profile
 //@ extern func simplifyFunc pure
 //@   trusted simplifyFunc is a deterministic function of its argument without side effects
 //@   ensures result == simplify(f)
+//@   ensures dot_trimmed: len(callres("Regexp.FindAllStringSubmatchIndex", 0)) == 0 ==> result == trimprefix(f, ".")
 //@ spec func drops(dropRx *regexp.Regexp, keepRx *regexp.Regexp, name string) bool =
 //@     match(dropRx, simplify(name)) && !(keepRx != nil && match(keepRx, simplify(name)))
 //@ spec func linedrop(loc *Location, dropRx *regexp.Regexp, keepRx *regexp.Regexp, i int) bool =
@@ -826,6 +827,9 @@ package profile
 //@ func Profile.preEncode nosafety
 //@   requires p != nil
 //@   ensures comments: len(p.commentX) == len(p.Comments)
+//@   loop 2
+//@     mustcall Strings label_keys_sorted: $arg0 == keys when true
+//@     mustcall Strings num_keys_sorted: $arg0 == numKeys when true
 //@   loop 14
 //@     invariant 0 <= $i && $i <= len(p.Comments) && len(p.commentX) == $i && p != nil
 
@@ -1316,3 +1320,23 @@ package profile
 //@     invariant 0 <= $i && $i <= len(l.Line) && forall k int :: 0 <= k && k < $i ==> l.Line[k].Line == 0 && l.Line[k].Column == 0
 //@   loop 5
 //@     invariant 0 <= $i && $i <= len(l.Line) && (forall k int :: 0 <= k && k < $i ==> l.Line[k].Column == 0) && (!linenumber ==> forall k int :: 0 <= k && k < len(l.Line) ==> l.Line[k].Line == 0 && l.Line[k].Column == 0)
+
+// ---- C14 (strengthened after seeded change heap-v2-header-rate-halved): the header variants and the rate each one
+// carries. Only the Go runtime's "heap" header prints twice the sampling rate; "heapz_v2" and "heap_v2" print the rate
+// itself; "heapprofile" is unsampled (rate 1); anything else is not a heap profile. H is the regexp match.
+//@ func parseHeapHeader nosafety
+//@   uses profile.errs
+//@   ensures v2_rate: result3 == nil && (callres("Regexp.FindStringSubmatch", 0)[5] == "heapz_v2" || callres("Regexp.FindStringSubmatch", 0)[5] == "heap_v2") ==> result0 == "v2" && (len(callres("Regexp.FindStringSubmatch", 0)[6]) > 0 ==> result1 == callres("ParseInt", 0)) && (len(callres("Regexp.FindStringSubmatch", 0)[6]) == 0 ==> result1 == 0)
+//@   ensures go_heap_half: result3 == nil && callres("Regexp.FindStringSubmatch", 0)[5] == "heap" ==> result0 == "v2" && (len(callres("Regexp.FindStringSubmatch", 0)[6]) > 0 ==> result1 == callres("ParseInt", 0) / 2)
+//@   ensures heapprofile_unsampled: result3 == nil && callres("Regexp.FindStringSubmatch", 0)[5] == "heapprofile" ==> result0 == "" && result1 == 1
+//@   ensures others_rejected: callres("Regexp.FindStringSubmatch", 0) == nil || (callres("Regexp.FindStringSubmatch", 0)[5] != "heapz_v2" && callres("Regexp.FindStringSubmatch", 0)[5] != "heap_v2" && callres("Regexp.FindStringSubmatch", 0)[5] != "heap" && callres("Regexp.FindStringSubmatch", 0)[5] != "heapprofile") ==> result3 != nil
+
+// ---- C14 (strengthened after seeded change remap-mapping-limit-inclusive): a location that gets its mapping in
+// remapMappingIDs lies inside that mapping's half-open address range [Start, Limit) — or the mapping is the fake
+// catch-all, or it is the mapping whose start was just moved down to cover the address (then the address lay below
+// the start the mapping had when the iteration began).
+//@ func Profile.remapMappingIDs arith bv nosafety
+//@   loop 1
+//@     step placed_inside: atiter(1, l.Mapping == nil) && l.Address != 0 ==> (l.Mapping == fake || (l.Mapping.Start <= l.Address && forall k int :: 0 <= k && k < len(p.Mapping) && p.Mapping[k] == l.Mapping ==> l.Address < p.Mapping[k].Limit || l.Address < atiter(1, p.Mapping[k].Start)))
+//@   loop 3
+//@     invariant starts_kept: forall k int :: 0 <= k && k < len(p.Mapping) ==> p.Mapping[k].Start == atiter(1, p.Mapping[k].Start)
